@@ -39,7 +39,43 @@ BigCases == IF Thorough
                   [kind |-> "enc_big", key |-> <<1, 2>>, byte |-> 255, len |-> 4194310]}
             ELSE {[kind |-> "enc_big", key |-> <<4660, 22136>>, byte |-> 65, len |-> 1048586]}
 
-Cases == SetToSeq(Fixed) \o SetToSeq(EncCases) \o SetToSeq(BigCases)
+(* ---- round 4 dimensions ---------------------------------------------------------------------- *)
+\* (1) the Jenkins pair at EVERY table width 1..64 (the six widths above are all multiples of 8)
+HetAll == {[kind |-> "het_all", count |-> IF Thorough THEN 40 ELSE 8, widths |-> [w \in 1..64 |-> w]]}
+
+\* (2) bodies of the extended tables, read through HetTable::read / BetTable::read.  The geometry decides the
+\* body length; `r` = body length mod 4 is the class attribute (all four residues must occur, asserted below).
+\* Compressed bodies: the driver varies the content until the stored length has residue `cr`.
+TblKeyClasses == {"table", "zero", "one", "ffff", "rand"}
+HetGeo  == {[n |-> n, ib |-> ib] : n \in 1..(IF Thorough THEN 12 ELSE 6), ib \in {1, 3, 8, 11}}
+HetBody(g) == 32 + g.n + (g.n * g.ib + 7) \div 8
+BetGeo  == {[fc |-> fc, es |-> es, nf |-> nf] : fc \in 1..(IF Thorough THEN 7 ELSE 4), es \in {7, 33}, nf \in {1, 2}}
+BetBody(g) == 76 + 4 * g.nf + (g.fc * g.es + 7) \div 8 + 8 * g.fc
+TblPlain == {[kind |-> "tbl", which |-> "het", n |-> g.n, ib |-> g.ib, fc |-> 0, es |-> 0, nf |-> 0, r |-> HetBody(g) % 4,
+              keycls |-> kc, comp |-> FALSE, cr |-> 0] : g \in HetGeo, kc \in TblKeyClasses}
+            \cup
+            {[kind |-> "tbl", which |-> "bet", n |-> 0, ib |-> 0, fc |-> g.fc, es |-> g.es, nf |-> g.nf, r |-> BetBody(g) % 4,
+              keycls |-> kc, comp |-> FALSE, cr |-> 0] : g \in BetGeo, kc \in (IF Thorough THEN TblKeyClasses ELSE {"table", "one", "rand"})}
+TblComp  == {[kind |-> "tbl", which |-> wh, n |-> n, ib |-> 8, fc |-> n, es |-> 33, nf |-> 2, r |-> 0,
+              keycls |-> kc, comp |-> TRUE, cr |-> cr] : wh \in {"het", "bet"}, n \in {48, 200}, kc \in {"table", "rand"}, cr \in 0..3}
+ASSUME \A wh \in {"het", "bet"} : \A r \in 0..3 : \E c \in TblPlain : c.which = wh /\ c.r = r
+
+\* (3) encrypted files written by ArchiveBuilder and read through Archive::read_file.  `zero` names the cipher
+\* unit of the file whose key is to be exactly 0 (offset table = final key - 1, sector i = final key + i); the
+\* driver searches a name whose FIX_KEY equation gives that final key.  shape: one unit / several sectors;
+\* rem = file size mod 4; comp = 0 raw sectors | 2 zlib; ver = archive format version.
+Shapes   == {"single", "multi"}
+ZeroAt(sh) == IF sh = "single" THEN {"none", "s0"} ELSE {"none", "ot", "s0", "s1", "last"}
+FileCases == {[kind |-> "encfile", fix |-> TRUE, zero |-> z, shape |-> sh, rem |-> r, comp |-> c, ver |-> 1] :
+                 sh \in Shapes, z \in {"none", "ot", "s0", "s1", "last"}, r \in 0..3, c \in {0, 2}}
+FileCasesOk == {c \in FileCases : c.zero \in ZeroAt(c.shape)}
+FileNoFix == {[kind |-> "encfile", fix |-> FALSE, zero |-> "none", shape |-> sh, rem |-> r, comp |-> c, ver |-> v] :
+                 sh \in Shapes, r \in {1, 2}, c \in {0, 2}, v \in (IF Thorough THEN {1, 2, 3, 4} ELSE {1})}
+FileVers  == {[kind |-> "encfile", fix |-> TRUE, zero |-> z, shape |-> "multi", rem |-> r, comp |-> 0, ver |-> v] :
+                 z \in {"ot", "s0", "none"}, r \in (IF Thorough THEN 0..3 ELSE {3}), v \in (IF Thorough THEN {2, 3, 4} ELSE {3})}
+Round4 == HetAll \cup TblPlain \cup TblComp \cup FileCasesOk \cup FileNoFix \cup FileVers
+
+Cases == SetToSeq(Fixed) \o SetToSeq(EncCases) \o SetToSeq(BigCases) \o SetToSeq(Round4)
 ASSUME ndJsonSerialize(IOEnv.CASES, Cases)
 ASSUME PrintT(<<"GENERATED", Len(Cases)>>)
 =============================================================================
